@@ -3,6 +3,7 @@ package main
 import (
 	"encoding/json"
 	"fmt"
+	"github.com/cosmos/cosmos-sdk/types/address"
 	"os"
 	"strings"
 	"sync"
@@ -212,7 +213,11 @@ func NewWorld(cfg Config) (*World, error) {
 	w.App = newApp(w.DB, w.Log, dir)
 
 	for i := 0; i < cfg.Delegators; i++ {
-		w.Delegators = append(w.Delegators, mkActor(fmt.Sprintf("delegator-%d", i)))
+		a := mkActor(fmt.Sprintf("delegator-%d", i))
+		if i == 0 && cfg.LongAddrDelegator {
+			a.Addr = sdk.AccAddress(address.Module("verif-sim", []byte(a.Name)))
+		}
+		w.Delegators = append(w.Delegators, a)
 	}
 	for i := 0; i < cfg.Natives; i++ {
 		w.Natives = append(w.Natives, mkActor(fmt.Sprintf("native-%d", i)))
